@@ -25,10 +25,13 @@ CLAIMED = {
          "DESIGN.md §6 C07", "the 4 MiB default is exercised in the thorough tier only."),
  "C08": ("deterministic simulation: real CircuitBreaker + resilience wrapper under seeded scheduler and virtual clock, lock-step comparison with a reference automaton",
          "Seeded search over policies x call histories x interleavings x clock advances; every admission and recorded result of the real breaker is compared with an independent reference automaton written from the statement. Exploration is the right level: the space (histories x schedules x clock positions) is unbounded and the breaker is cheap enough for ~10^5 runs per minute.",
-         "DESIGN.md §6 C08", ""),
+         "DESIGN.md §6 C08", "The last sentence of the property (Proxy maps a short-circuited call to 503/shortCircuited without contacting a server, buffered and stream requests) is decided by the sub-harness C08P (real ServerPool with an injected CircuitBreakerPolicy, scripted transport), run as part of this check."),
  "C09": ("deterministic simulation: real RateLimiter / MultiRateLimiter / RateLimiter filter (incl. reload) / MQTT limiter driven by concurrent tasks on the virtual clock, reservation-ledger oracle",
          "Seeded search over policies x arrival patterns (bursts, exact period boundaries, idle gaps) x concurrent acquirers x reloads; per-period release counts, waits and rejections are checked against a ledger written from the statement.",
          "DESIGN.md §6 C09", "a hook file added by overlay reports the instants the limiter reads from its clock (still time.Now on the virtual clock)."),
+ "C10": ("deterministic simulation: real ServerPool.handle with Retry/CircuitBreaker wrappers and pool time-out under concurrent clients on the virtual clock; scripted per-attempt transport outcomes, client cancellation at drawn instants (incl. exact back-off boundaries); second variant with the Proxy's real http.Transport over the simulated network against a stalling/resetting backend",
+         "Seeded search over retry policies x per-attempt outcome scripts x cancellation instants x time-outs x buffered/stream bodies x interleavings; attempts, their spacing, the final outcome and the breaker's window totals are checked against the statement, with bounded liveness (408 within the bound of simulated time) on the network variant.",
+         "DESIGN.md §6 C10", "fnSendRequest is scripted in 92% of runs; 8% use the real transport over simnet."),
  "C12": ("deterministic simulation: request histories from concurrent clients against twin real muxes (cacheSize n vs 0), including colliding keys and constant eviction",
          "Seeded search over rule sets x request sequences x cache sizes x client interleavings; each answer of the cached mux must equal the cache-less twin's answer.",
          "DESIGN.md §6 C12", "the oracle is the same routing code without cache."),
